@@ -32,6 +32,12 @@ SwitchEnv == WideEnv \cup {"SetProfile", "RemoveProfile", "AddProfile"}    \* + 
 ExpiryFlagSets == SUBSET {"m", "c", "e"}
 NoProfile == {}
 LeafProfile == {"l"}
+\* layout `inherit`: the chain, `s` has no validity block and references the profile from the start; three profile content values
+InheritParent == ChainParent
+InheritAlt == ChainAlt
+InheritEnts == {"s"}
+InheritProfile == {"l", "s"}
+ThreeValues == {0, 1, 2}
 AllFault == {"SignFail", "WriteErr", "WriteTorn", "Die"}
 
 \* bounded variant: at most MaxEnv environment actions (history variable kept out of the invariants)
